@@ -86,6 +86,17 @@ def run(ck):
         ck.ob("C14-R2", "onInput/refused-feed->413", bool(th) and not reach and not exits, "%s:%s" % (f.file, f.blocks[bid].term.get("l")), f,
               "throws HttpError(Request_Entity_Too_Large) on every path; onRequest unreachable" if (th and not reach and not exits) else
               "refused feed: throw413=%s reaches-onRequest=%s non-throwing-exit=%s" % (bool(th), bool(reach), bool(exits)))
+    # ... and the other way round: "request too large" is said only where the buffer itself has refused the bytes.  A second, computed
+    # verdict (announced length against remaining room, say) can disagree with the buffer's -- counting bytes twice -- and refuses
+    # requests that fit
+    all413 = [e for e in f.events("throw") if "HttpError" in (e.get("type") or "") and lib.refs_enumerator(e, H + "Code::Request_Entity_Too_Large")]
+    for lf_ in prog.lambdas_in(f):
+        all413 += [e for e in lf_.events("throw") if "HttpError" in (e.get("type") or "") and lib.refs_enumerator(e, H + "Code::Request_Entity_Too_Large")]
+    extra413 = [e for e in all413 if e.func.id != f.id or not any(cfg.edge_dominates(f, bid, k, e) for bid, k in feeds)]
+    ck.ob("C14-R2", "onInput/413-only-on-a-refused-feed", not extra413, (extra413[0].loc if extra413 else f.loc), f,
+          "every Request_Entity_Too_Large is raised on the edge on which feed() returned false" if not extra413 else
+          "Request_Entity_Too_Large is also raised at line %s, on a path that does not come from a refused feed(): a second size verdict "
+          "next to the buffer's own can refuse a request that is within the limit" % extra413[0].get("l"))
     # onRequest only on an edge that knows parse() returned Done (compared directly or through a local, `==` taken or `!=` not taken)
     done = lib.value_edges(f, H + "Private::ParserBase::parse", "e:" + H + "Private::State::Done", ("==",))
     ok = bool(done) and all(any(cfg.edge_dominates(f, bid, k, e) for bid, k in done) for e in onreq)
@@ -387,6 +398,33 @@ def run(ck):
     base = [e for e in orf.calls(lambda e: (e.get("callee") or "") == "Pistache::Tcp::Transport::onReady" and e.get("qualified"))]
     bad = [x for x in cfg.exits_without(orf, lambda e: any(e is b for b in base)) if x.kind != "throw"]
     ck.ob("C14-R5", "onReady/periodic-scan", ok and bool(base) and not bad, orf.loc, orf, "timer tag => checkIdlePeers(); Base::onReady(fds) on every path")
+    # ... on *every* path of that arm: a tick that is not followed by the scan (skipped because several periods had gone by, say) postpones
+    # every 408 by as long as the condition lasts -- under load, for ever
+    skipped = []
+    heads5 = {x.id for x in orf.blocks.values() if x.term and x.term.get("k") == "rangefor"} | {h for h, _b in cfg.natural_loops(orf)}
+    for b in tt:
+        wk = 1 if b.term.get("neg") else 0
+        if b.succs[wk] is None or not any(cfg.edge_dominates(orf, b.id, wk, c_) for c_ in cic):
+            continue
+
+        def st5(st, ev):
+            if any(ev is c_ for c_ in cic):
+                return None
+            if any(ev is x_ for x_ in base):
+                skipped.append(ev)
+                return None
+            return st
+
+        def ed5(st, blk, k, succ):
+            if succ in heads5:
+                skipped.append(blk)
+                return None
+            return st
+        ex5, _ = cfg.run_automaton(orf, 0, st5, edge=ed5, start=b.succs[wk])
+        skipped += [x for x in ex5 if x.kind != "throw"]
+    ck.ob("C14-R5", "onReady/every-tick-scans", not skipped, cic[0].loc if cic else orf.loc, orf,
+          "checkIdlePeers() on every path of the periodic-timer arm" if not skipped else
+          "the periodic-timer arm can be left without calling checkIdlePeers(): a tick that does not scan delays every pending 408")
     sends = [e for e in cip.calls(lambda e: (e.get("callee") or "") == H + "ResponseWriter::send" and lib.refs_enumerator(e, H + "Code::Request_Timeout"))]
     thens = [e for e in cip.calls(lambda e: e.base_callee() == "Pistache::Async::Promise::then")]
     rel_ok = False
